@@ -323,7 +323,7 @@ func (r *Run) writeEvidence(nOb, nDis int, under, trusted, summarised, external,
 		"samples":                  samples,
 		"undecided":                undecided,
 		"sweep_units_not_claimed":  r.unclaimed,
-		"vacuity":                  map[string]interface{}{"canaries_sat": r.canarySat, "canaries_unknown": r.canaryUnknown, "vacuous_units": r.vacuous, "rule": "for every unit the hypotheses of its last obligation are checked satisfiable (5 s); unsat would mean a vacuous proof and is reported as a failure"},
+		"vacuity":                  map[string]interface{}{"canaries_sat": r.canarySat, "canaries_unknown": r.canaryUnknown, "vacuous_units": r.vacuous, "rule": "for every fully discharged unit two sets of hypotheses are checked satisfiable (5 s each): those of its first obligation (entry: preconditions, type invariants, lemma instances) and those of its last postcondition / assertion (the normal-return state); unsat would mean a vacuous proof and is reported as a failure; unknown is counted, not failed"},
 		"structural_scan":          "established_by: objects of types with an invariant are created / written only in the listed constructors (checked on the typed AST of the whole module on every run)",
 		"explanation":              explanationOf(r.prop, nOb, nDis, undecided, sres),
 	}
